@@ -168,14 +168,16 @@ def _names(t):
 
 def rule_geometry_frames(eng, rep, rule="C13-3"):
     """Frame agreement at the arithmetic / clamp / dykstra sites of the step routines and their callers."""
-    want = ("trust_region.", "controller.Controller.geometry_step", "controller.Controller.trust_region_step", "controller.Controller.evaluate_criticality_measure")
+    want = ("trust_region.", "controller.Controller.geometry_step", "controller.Controller.trust_region_step", "controller.Controller.evaluate_criticality_measure", "util.model_value")
     n = 0
     seen = set()
     for cfg in frames.CONFIGS:
         it = frames.analyse(eng, cfg)
         for (kind, nid), (fi, node) in it.sites.items():
-            if not fi.fid.startswith(want) or kind not in ("arith", "clamp", "dykstra-frames"):
+            if not fi.fid.startswith(want) or kind not in ("arith", "clamp", "dykstra-frames", "callback-frame"):
                 continue
+            if kind == "callback-frame" and fi.fid != "util.model_value":
+                continue      # model_value feeds the predicted reduction of the regularised step (C13-2); other callbacks belong to C06
             if kind == "arith" and "gradient_Fu" in fi.fid:
                 continue  # callbacks in user coordinates: decided under C06-5
             n += 1
